@@ -39,9 +39,9 @@ const (
 var c03Carriers = []string{"print", "letc", "param-content", "call-value", "call-all", "call-deep", "msg", "letc-reprint", "data-map"}
 var c03Modes = []string{"", "true", "false", "contextual", "deprecated-contextual"}
 
-func intE(i int) *ref.Expr { return &ref.Expr{Op: "int", I: int64(i)} }
+func intE(i int) *ref.Expr    { return &ref.Expr{Op: "int", I: int64(i)} }
 func varE(n string) *ref.Expr { return &ref.Expr{Op: "ref", Name: n} }
-func txt(s string) ref.Cmd  { return ref.Cmd{K: "text", Text: s} }
+func txt(s string) ref.Cmd    { return ref.Cmd{K: "text", Text: s} }
 
 // buildC03 constructs the bundle for a case and says which template prints the value.
 func buildC03(c C03Case) (pc gen.ProgCase, printerNs, printerTmpl string) {
